@@ -11,7 +11,7 @@ targets against a plain loop.
 """
 import itertools
 
-from glom import glom, Path, T, PathAccessError, assign, delete, Assign, Delete
+from glom import glom, Path, T, Spec, PathAccessError, assign, delete, Assign, Delete
 
 from .. import objs
 from ..engine import R, Sub
@@ -330,10 +330,12 @@ def tree_targets():
         'rows-of-dicts': lambda: {'g': [[{'k': 1}, {'k': 2}], [{'k': 3}]]},
         'mixed-kinds': lambda: {'a': [{'0': 'x', 'k': 1}, [10, 20], objs.Obj(k=5), {'0': 'y'}]},
         'mixed-kinds-2': lambda: {'a': [[10, 20], {'0': 'x', 'k': 1}, {'1': 'z'}]},
+        'miss-in-the-middle': lambda: {'a': [{'k': 1}, {'z': 0}, {'k': 3}, [7], {'k': 5}]},
+        'keys-named-x': lambda: {'x': [[1, 2], [3, 4]], 'X': {'x': [{'k': 1}, {'k': 2}], 'X': [[5, 6], [7]]}, 'a': {'x': {'k': 1}, 'X': {'k': 2}}},
     }
 
 
-MUT_PATHS = ['a.*.k', 'a.*.0', 'a.*.1', 'a.*.b.*.k', 'a.*.n', '*.*.k', 'g.*.*.0', 'g.*.*.*.k', '*.*.*.0', 'h.*.*.*.k', 'g.*.*.k', '*.*.*.*.k', 'g.*.0']
+MUT_PATHS = ['x.0', 'x.1.0', 'X.x.0', 'X.x.k', 'X.X.0', 'X.X.1.0', 'a.x.k', 'a.X.k', 'a.*.k', 'a.*.0', 'a.*.1', 'a.*.b.*.k', 'a.*.n', '*.*.k', 'g.*.*.0', 'g.*.*.*.k', '*.*.*.0', 'h.*.*.*.k', 'g.*.*.k', '*.*.*.*.k', 'g.*.0']
 
 
 def snapshot(v, depth=0):
@@ -346,8 +348,7 @@ def snapshot(v, depth=0):
     return ('val', repr(v))
 
 
-def ref_mutate(target, text, op, val):
-    """plain loop: resolve the parent entries with the reference wildcard walk, then act on each"""
+def ref_parents(target, text):
     steps = text_steps(text)
     parents = ref_eval(target, steps[:-1])
     depth = sum(1 for s in steps[:-1] if s in ('*', '**'))
@@ -355,38 +356,79 @@ def ref_mutate(target, text, op, val):
         parents = sum(parents, [])
     if depth == 0:
         parents = [parents]
-    seg = steps[-1][1]
+    return parents, steps[-1][1]
+
+
+def ref_mutate(target, text, op, val):
+    """plain loop: resolve the parent entries with the reference wildcard walk, then act on each"""
+    try:
+        parents, seg = ref_parents(target, text)
+    except Miss:
+        if op == 'delete-ignore':
+            return           # the parent itself is missing: nothing to delete
+        raise
     for p in parents:
-        if op == 'assign':
-            if isinstance(p, dict):
-                p[seg] = val
-            elif isinstance(p, list):
-                p[int(seg)] = val
+        try:
+            if op == 'assign':
+                if isinstance(p, dict):
+                    p[seg] = val
+                elif isinstance(p, list):
+                    p[int(seg)] = val
+                else:
+                    setattr(p, seg, val)
             else:
-                setattr(p, seg, val)
-        else:
-            if isinstance(p, dict):
-                del p[seg]
-            elif isinstance(p, list):
-                del p[int(seg)]
-            else:
-                delattr(p, seg)
+                if isinstance(p, dict):
+                    del p[seg]
+                elif isinstance(p, list):
+                    del p[int(seg)]
+                else:
+                    delattr(p, seg)
+        except Exception:
+            if op != 'delete-ignore':
+                raise
+
+
+VALUE_KINDS = ['lit', 'reads-target', 'list-literal', 'dict-literal-with-T']
+
+
+def mk_mut_value(kind):
+    """-> (value handed to assign, function computing the expected value from the ORIGINAL target)"""
+    if kind == 'lit':
+        return 'NEW', (lambda t: 'NEW')
+    if kind == 'reads-target':
+        # evaluated ONCE, against the target as it was before the first match was written
+        return Spec(lambda t: 'seen:' + repr(snapshot(t))), (lambda t: 'seen:' + repr(snapshot(t)))
+    if kind == 'list-literal':
+        return ['L', 1], (lambda t: ['L', 1])
+    if kind == 'dict-literal-with-T':
+        return {'root-keys': T.keys(), 'n': 1} if False else {'first': Spec(lambda t: sorted(t)[0]), 'n': 1}, (lambda t: {'first': sorted(t)[0], 'n': 1})
+    raise ValueError(kind)
 
 
 def run_mutate(case):
-    tname, text, op, style = case
+    tname, text, op, style = case[:4]
+    vkind = case[4] if len(case) > 4 else 'lit'
     mk = tree_targets()[tname]
     ref_t, t = mk(), mk()
+    value, expect = mk_mut_value(vkind)
     try:
-        ref_mutate(ref_t, text, op, 'NEW')
-        want = ('ok', snapshot(ref_t))
-    except Exception as e:
-        want = ('err', type(e).__name__)
+        ref_val = expect(ref_t)
+        try:
+            ref_mutate(ref_t, text, op, ref_val)
+            want = ('ok', snapshot(ref_t))
+        except RecursionError:
+            raise
+        except Exception as e:
+            want = ('err', type(e).__name__)
+    except RecursionError:
+        return R(None, 'unbuildable', nontrivial=False)
     try:
         if op == 'assign':
-            res = assign(t, text, 'NEW') if style == 'func' else glom(t, Assign(text, 'NEW'))
-        else:
+            res = assign(t, text, value) if style == 'func' else glom(t, Assign(text, value))
+        elif op == 'delete':
             res = delete(t, text) if style == 'func' else glom(t, Delete(text))
+        else:
+            res = delete(t, text, ignore_missing=True) if style == 'func' else glom(t, Delete(text, ignore_missing=True))
         got = ('ok', snapshot(t))
         if res is not t:
             return R({'expected': 'the same object is returned', 'observed': repr(res), 'case': case}, 'identity')
@@ -394,11 +436,25 @@ def run_mutate(case):
         got = ('err', type(e).__name__)
     if want[0] != got[0] or (want[0] == 'ok' and want[1] != got[1]):
         return R({'expected': repr(want)[:600], 'observed': repr(got)[:600], 'case': case}, 'mutate')
-    return R(None, '%s:%s' % (op, want[0]), nontrivial=want[0] == 'ok', steps=1, tags={op})
+    if op == 'assign' and want[0] == 'ok':
+        # "for m in matches: m[k] = val": one value object, shared by every match
+        parents, seg = ref_parents(t, text)
+        vals = [p[seg] if isinstance(p, dict) else p[int(seg)] if isinstance(p, list) else getattr(p, seg) for p in parents]
+        if len(set(id(v) for v in vals)) > 1:
+            return R({'expected': 'every match receives the same value object', 'observed': '%d distinct objects' % len(set(id(v) for v in vals)), 'case': case}, 'value-per-match')
+    return R(None, '%s:%s' % (op, want[0]), nontrivial=want[0] == 'ok', steps=1, tags={op, vkind})
 
 
 def gen_mutate(tier):
-    return [[t, p, op, style] for t in tree_targets() for p in MUT_PATHS for op in ('assign', 'delete') for style in ('func', 'spec')]
+    out = []
+    for t in tree_targets():
+        for p in MUT_PATHS:
+            for style in ('func', 'spec'):
+                out.append([t, p, 'delete', style, 'lit'])
+                out.append([t, p, 'delete-ignore', style, 'lit'])
+                for vk in VALUE_KINDS:
+                    out.append([t, p, 'assign', style, vk])
+    return out
 
 
 # ---------------------------------------------------------------------------
